@@ -84,6 +84,54 @@ def entryBlocks (sat : Bool) (kc : Nat) (za zb : Int) : Nat → List Int → Lis
 def entrySimd (sat : Bool) (kc : Nat) (za zb : Int) (a b : List Int) : Int :=
   entryBlocks sat kc za zb a.length a b
 
+/-! ### Vector-matrix path (`gemv`, M = 1 and nothing prepacked)
+
+`lib.rs::gemv` cuts the columns into blocks of `cb = max(⌈N / threads⌉, 128)` and K into chunks of
+512 (B has unit row stride) or 8; every chunk is handled by `simd_int8_gemv` and accumulated:
+* B with unit row stride (`simd_int8_gemv_transposed`): per column, K-tiles of one SIMD vector
+  (`lanes` = 32 bytes AVX2, 64 AVX-512) go through the dot-product instruction, the rest is scalar;
+* B with unit column stride: columns are taken `lanes` at a time; for those, K-tiles of 4 go through
+  the dot-product instruction and the K tail is a plain i32 multiply-add; the remaining columns of
+  the block are scalar;
+* otherwise (`simd_int8_gemv_fallback`) everything is scalar.
+Column sums use `dot(1, b)` (never saturates); the correction is the same as in the epilogue. -/
+
+/-- Dot product of one K chunk on the gemv path: the first `⌊len/tile⌋·tile` elements go through the
+4-wide dot-product instruction (pair saturation when `sat`), the rest is exact. `tile = 0`: all
+scalar. -/
+def gemvDot (sat : Bool) (tile : Nat) (a b : List Int) : Int :=
+  dotTiles sat (a.take (a.length / tile * tile)) (b.take (a.length / tile * tile)) +
+    dot (a.drop (a.length / tile * tile)) (b.drop (a.length / tile * tile))
+
+/-- One chunk: `depth·za·zb + acc − rowsum·zb − colsum·za`. -/
+def entryGemvBlock (sat : Bool) (tile : Nat) (za zb : Int) (a b : List Int) : Int :=
+  (a.length : Int) * za * zb + gemvDot sat tile a b - sum a * zb - sum b * za
+
+def entryGemvBlocks (sat : Bool) (tile kc : Nat) (za zb : Int) : Nat → List Int → List Int → Int
+  | 0, _, _ => 0
+  | fuel + 1, a, b =>
+      if a.isEmpty then 0
+      else entryGemvBlock sat tile za zb (a.take kc) (b.take kc) +
+           entryGemvBlocks sat tile kc za zb fuel (a.drop kc) (b.drop kc)
+
+def entryGemv (sat : Bool) (tile kc : Nat) (za zb : Int) (a b : List Int) : Int :=
+  entryGemvBlocks sat tile kc za zb a.length a b
+
+/-- Stride class of B on the gemv path. -/
+inductive BKind where
+  | unitRowStride | unitColStride | general
+  deriving DecidableEq, Repr
+
+/-- K-tile size that goes through the dot-product instruction for output column `j`. -/
+def gemvTile (kind : BKind) (lanes cb n j : Nat) : Nat :=
+  match kind with
+  | .unitRowStride => lanes
+  | .general => 0
+  | .unitColStride =>
+      let blockStart := (j / cb) * cb
+      let blockLen := min cb (n - blockStart)
+      if j - blockStart < (blockLen / lanes) * lanes then 4 else 0
+
 /-- Two's complement wrap to 32 bits. -/
 def wrap32 (x : Int) : Int := (x + 2147483648) % 4294967296 - 2147483648
 
@@ -107,6 +155,12 @@ structure Request where
   sat : Bool
   /-- depth block size (`kc`, or the gemv chunk size) -/
   kc : Nat
+  /-- the vector-matrix fast path is taken (M = 1, nothing prepacked) -/
+  gemv : Bool
+  /-- stride class of B, SIMD width in bytes, column block size (gemv path only) -/
+  bKind : BKind
+  lanes : Nat
+  cb : Nat
   /-- A / B prepacked (`GemmInput*::Packed`); does not influence the result -/
   preA : Bool
   preB : Bool
@@ -147,7 +201,9 @@ def entry (r : Request) (i j : Nat) : Int :=
   let zb := effZero r.zb j
   let v := match r.kern with
     | .generic => dotZ za zb a b
-    | .simd => entrySimd r.sat r.kc za zb a b
+    | .simd =>
+      if r.gemv then entryGemv r.sat (gemvTile r.bKind r.lanes r.cb r.n j) r.kc za zb a b
+      else entrySimd r.sat r.kc za zb a b
   let c := match r.c0 with
     | none => 0
     | some l => l.getD (i * r.n + j) 0
